@@ -7,9 +7,21 @@ the tree under test on every run (`Generated/C12Tables.lean`).
 Mirrors `glue/core/state.py`:
 
     def lookup_class_with_patches(name):
+        original = name
         while name in PATH_PATCHES:
             name = PATH_PATCHES[name]
-        return lookup_class(name)
+        try:
+            return lookup_class(name)
+        except ValueError:
+            if name != original:
+                try:
+                    return lookup_class(original)
+                except ValueError:
+                    pass
+            raise
+
+(the `try` / `except` is `fix: patch fallback to live class`, finding F12b; the pinned tree ended
+with `return lookup_class(name)`).
 -/
 namespace GlueVerif.C12
 
@@ -43,6 +55,37 @@ leading into the cycle (the Python loop spins forever). -/
 inductive Loop (t : Patches α) : α → α → Prop
   | done {n : α} : plookup t n = none → Loop t n n
   | step {n m r : α} : plookup t n = some m → Loop t m r → Loop t n r
+
+/-! ### the lookup after the chase (with the fallback of `fix: patch fallback to live class`) -/
+
+/-- What `lookup_class_with_patches` does in the end: returns the object found under a name, or
+raises `ValueError` (the message names the patched target). -/
+inductive Lookup (α : Type) where
+  | found (n : α)
+  | error (n : α)
+  deriving DecidableEq, Repr
+
+/-- The part after the loop, `r` = the name the loop ended with, `importable n` = `lookup_class(n)`
+succeeds (depends on the environment: which packages are installed): the patched target if it
+can be imported; else the **original** name if it was redirected and can still be imported; else the
+`ValueError` of the target. -/
+def finish (importable : α → Bool) (name r : α) : Lookup α :=
+  if importable r then .found r
+  else if r ≠ name ∧ importable name then .found name
+  else .error r
+
+/-- the names handed to `lookup_class`, in order. -/
+def finishCalls (importable : α → Bool) (name r : α) : List α :=
+  if importable r then [r] else if r ≠ name then [r, name] else [r]
+
+/-- `lookup_class_with_patches(name)` with at most `fuel` redirections (`none` = the loop has not
+ended). -/
+def lookupWithPatches (t : Patches α) (importable : α → Bool) (fuel : Nat) (name : α) : Option (Lookup α) :=
+  (chase t fuel name).map (finish importable name)
+
+/-- the pinned tree (before the fix): `return lookup_class(name)` after the loop. -/
+def Orig.lookupWithPatches (t : Patches α) (importable : α → Bool) (fuel : Nat) (name : α) : Option (Lookup α) :=
+  (chase t fuel name).map fun r => if importable r then .found r else .error r
 
 /-- Checker: from every key the chase reaches a non-key within `|table|` redirections. -/
 def chaseAll (t : Patches α) : Bool := t.all fun p => (chase t t.length p.1).isSome
@@ -83,6 +126,12 @@ def knownCaptured : List String :=
 /-- Checker for `no_capture_partial`; `nameOf` maps a table name to its string. -/
 def noCaptureExcept (t : Patches α) (cl : ClassTable α) (nameOf : α → String) (exc : List String) : Bool :=
   (capturedKeys t cl).all fun k => exc.contains (nameOf k)
+
+/-- Checker for `captured_live_class_still_loads`: every captured key is recorded as importable
+under its own (original) name — `imp` is the translator's observation `lookup_class(name)` for the
+names of the table that lie inside the package. -/
+def capturedImportable (t : Patches α) (cl : ClassTable α) (imp : List (α × Bool)) : Bool :=
+  (capturedKeys t cl).all fun k => imp.contains (k, true)
 
 /-- A frozen excerpt of the pinned tree (patch file lines 3 and 6, class-table rows of the two
 layer artists) used for the `decide`d defect witness; the generated tables cannot be used for
